@@ -45,13 +45,13 @@ def build(tier, seed):
         return text(unit) + stubs + open(os.path.join(VERIF, 'harness', H)).read(), skipped + [unit.resolve_text('@{known_word}')], info
     obs = [
         Ob('C13.types', u, H, 'h_types', 'the 26 built-in type accessors: pairwise distinct entries of the constant table, each named by the reserved Identifier of its documented spelling, its own underlying expression, typed `typename`, natural C++ transfer; independent of the Lexicon object',
-           kind='K1', flags=['--unwind', '60'], replay='C13', timeout=900),
+           kind='K1', flags=['--unwind', '72'], replay='C13', timeout=900),
         Ob('C13.values', u, H, 'h_values', 'true, false, nullptr, default, delete and the two standard linkages: distinct, named by the reserved word of their spelling, typed bool / bool / decltype(nullptr) / void; independent of the Lexicon object',
-           kind='K1', flags=['--unwind', '60'], replay='C13', timeout=900),
+           kind='K1', flags=['--unwind', '72'], replay='C13', timeout=900),
         Ob('C13.route.as_type', u, H, 'h_route_as_type', 'get_as_type(Identifier): the reserved Identifier of a built-in spelling yields that built-in constant (each of the 27 table entries), any other Identifier an extended type that is not a built-in',
-           kind='K1', flags=['--unwind', '60'], replay='C13', timeout=900),
+           kind='K1', flags=['--unwind', '72'], replay='C13', timeout=900),
         Ob('C13.route.decltype', u, H, 'h_route_decltype', 'get_decltype(nullptr constant) is the type of the nullptr constant; denote_builtin_type holds exactly for nodes that are their own underlying expression',
-           kind='K1', flags=['--unwind', '60'], replay='C13', timeout=900),
+           kind='K1', flags=['--unwind', '72'], replay='C13', timeout=900),
     ]
     for o in obs:
         o.gen = gen
